@@ -223,10 +223,13 @@ Proof.
   destruct (omap_list_nth_inv _ _ _ _ _ Hs' Hk) as [f [Hf Hfs]].
   destruct (omap_list_nth _ _ _ _ _ Hm' Hf) as [fm [Hfm Hmf]].
   unfold annot_func in Hfs. unfold ameter_func, ameter_body in Hmf.
-  destruct (nth_error (m_types m) (f_type f)) as [ft|] eqn:Eft; [|discriminate Hfs].
-  destruct (Meter.annot_seq cfg cx [ft_result ft] (f_body f)) as [sa|] eqn:Esa; [|discriminate Hfs].
-  destruct (Meter.mseq cfg cx [ft_result ft] (f_body f)) as [[h0 body']|] eqn:Ems; [|simpl in Hmf; discriminate Hmf].
-  cbn [obind] in Hmf. destruct (seg_ok _); [|discriminate Hmf].
+  destruct (nth_error (m_types m) (f_type f)) as [ft|] eqn:Eft;
+    rewrite ?Eft in Hfs, Hmf; [|discriminate Hfs].
+  match type of Hfs with context [Meter.annot_seq ?a ?b ?c ?d] =>
+    destruct (Meter.annot_seq a b c d) as [sa|] eqn:Esa; [|discriminate Hfs] end.
+  match type of Hmf with context [Meter.mseq ?a ?b ?c ?d] =>
+    destruct (Meter.mseq a b c d) as [[h0 body']|] eqn:Ems; cbn [obind] in Hmf; [|discriminate Hmf] end.
+  destruct (seg_ok _); [|discriminate Hmf].
   inversion Hfs; inversion Hmf; subst.
   exists f, ft, sa, h0, body'. repeat split; auto.
 Qed.
@@ -247,5 +250,494 @@ Lemma is_local_shift fi : is_local m' (S fi) = is_local m fi.
 Proof. unfold is_local. rewrite imports'. reflexivity. Qed.
 Lemma obs_ev_call fi : obs_m (ev_call m' (S fi)) = obs_s (ev_call m fi).
 Proof. unfold ev_call. rewrite is_local_shift. destruct (is_local m fi); reflexivity. Qed.
+
+(** ** the simulation statements (source fuel [f]; the metered side holds for all large fuel) *)
+Definition shv (r : sum res (store * option val)) : sum res (store * option val) :=
+  match r with inr (s', v) => inr (sh s', v) | inl r0 => inl r0 end.
+Definition goodv (r : sum res (store * option val)) : bool :=
+  match r with inl r0 => good r0 | inr _ => true end.
+
+Definition SimA (f : nat) : Prop :=
+  forall L is h0 is' sa, mseq L is = Some (h0, is') -> annot_seq L is = Some sa ->
+  forall s l st W r, X_seq f s l st sa = (W, r) -> good r = true ->
+  exists T r', ESm is' (sh s) l st T r' /\ RR L r r' /\ obs_m T = obs_s W.
+Definition SimInv (f : nat) : Prop :=
+  forall s fi args W r, X_inv f s fi args = (W, r) -> goodv r = true ->
+  exists T, EVm (sh s) (S fi) args T (shv r) /\ obs_m T = obs_s W.
+Definition SimLoop (f : nat) : Prop :=
+  forall L body hb body' sbody o bt,
+  mseq (None :: L) body = Some (hb, body') -> annot_seq (None :: L) body = Some sbody ->
+  forall s l st W r, X_instr f s l st (ALoop o bt sbody) = (W, r) -> good r = true ->
+  exists T r', EIm (ALoop o bt (tick_opt hb ++ body')) (sh s) l st T r' /\ RR L r r' /\ obs_m T = obs_s W.
+
+Lemma EI_tick o n s l st : EIm (ABasic o (BTick n)) s l st (EvTick n :: ev_work o) (RNormal s l st).
+Proof. apply (EI_simple (mhost h) cap m' afs_m o (BTick n) s l st eq_refl). Qed.
+
+Lemma ES_tick_opt hh is' s l st T r :
+  ESm is' s l st T r -> exists T', ESm (tick_opt hh ++ is') s l st T' r /\ obs_m T' = obs_m T.
+Proof.
+  intro H. unfold tick_opt. destruct (0 <? hh)%N.
+  - exists ((EvTick hh :: ev_work OInj) ++ T). split; [|reflexivity].
+    eapply (ES_cons_normal (mhost h) cap m' afs_m); [apply EI_tick|exact H].
+  - exists T. split; [exact H|reflexivity].
+Qed.
+
+Lemma RR_good L r r' : RR L r r' -> good r = true.
+Proof. destruct r, r'; cbn; tauto. Qed.
+Lemma RR_normal_iff L r r' : RR L r r' -> is_normal r' = is_normal r.
+Proof. destruct r, r'; cbn; tauto. Qed.
+
+(** invocation *)
+Lemma fin_result_sh ft s' vs vs' :
+  firstn (arity (ft_result ft)) vs' = firstn (arity (ft_result ft)) vs ->
+  fin_result ft (sh s') vs' = (fst (fin_result ft s' vs), shv (snd (fin_result ft s' vs))).
+Proof.
+  unfold fin_result. destruct (ft_result ft); cbn [arity]; [|reflexivity].
+  destruct vs, vs'; cbn [firstn]; intro H; try discriminate; try reflexivity. inversion H; reflexivity.
+Qed.
+
+Lemma inv_res_sh ft r r' :
+  RR [ft_result ft] r r' ->
+  inv_res ft r' = (fst (inv_res ft r), shv (snd (inv_res ft r))).
+Proof.
+  destruct r as [s1 l1 vs|k s1 l1 vs|s1 vs| | |], r' as [s2 l2 vs'|k' s2 l2 vs'|s2 vs'| | |]; cbn [RR]; try tauto.
+  - intros [-> [-> ->]]. cbn [inv_res]. apply fin_result_sh. reflexivity.
+  - intros [-> [-> [-> H]]]. destruct k; cbn [inv_res]; [|reflexivity]. apply fin_result_sh. apply H. reflexivity.
+  - intros [-> ->]. cbn [inv_res]. apply fin_result_sh. reflexivity.
+Qed.
+
+Lemma simInv_step f : (forall f', (f' < f)%nat -> SimA f') -> SimInv f.
+Proof.
+  intros HA s fi args W r H Hg. destruct f as [|f]; [inversion H; subst; discriminate|].
+  rewrite tinv_S in H. unfold inv_body in H.
+  destruct (fi <? length (m_imports m))%nat eqn:Eimp.
+  - (* imported function *)
+    destruct (afunc_type m afs_s fi) as [ft|] eqn:Eft; [|inversion H; subst; discriminate].
+    inversion H; subst; clear H.
+    exists [EvHost (S fi) args]. split; [|reflexivity].
+    assert (El : (S fi <? length (m_imports m'))%nat = true) by (rewrite imports'; exact Eimp).
+    pose proof (EV_host (mhost h) cap m' afs_m (sh s) (S fi) args ft El (atype_shift _ _ Eft)) as E.
+    cbn [mhost s_mem sh] in E. destruct (h fi args (s_mem s)); exact E.
+  - destruct (nth_opt afs_s (fi - length (m_imports m))) as [fs|] eqn:Efs; [|inversion H; subst; discriminate].
+    destruct (func_pair _ _ Efs) as [fn [ft [sa [h0 [body' [Hft [Hsa [Hms [Hfs Hfm]]]]]]]]].
+    subst fs. cbn [af_type af_locals af_body af_entry] in H.
+    unfold nth_opt in H at 1. rewrite Hft in H.
+    destruct (X_seq f s (args ++ map zero_of (f_locals fn)) [] sa) as [t r1] eqn:Et.
+    assert (Hg1 : good r1 = true).
+    { destruct r1 as [| [|k] | | | |]; try reflexivity; exfalso; inversion H; subst; cbn in Hg; discriminate Hg. }
+    destruct (HA f (Nat.lt_succ_diag_r f) [ft_result ft] (f_body fn) h0 body' sa Hms Hsa _ _ _ _ _ Et Hg1)
+      as [T [r1' [HES [HRR Hobs]]]].
+    set (ia := c_invoke_after cfg (N.of_nat (length (f_locals fn)))) in *.
+    (* the metered body: entry tick, then body' *)
+    assert (HB : exists T', ESm (entry_tick ia h0 ++ body') (sh s) (args ++ map zero_of (f_locals fn)) [] T' r1'
+                            /\ obs_m T' = obs_s [EvWork ia] ++ obs_m T).
+    { unfold entry_tick. destruct (0 <? ia + h0)%N eqn:E0.
+      - exists ((EvTick (ia + h0) :: ev_work (OSrc ia 0)) ++ T). split.
+        + eapply (ES_cons_normal (mhost h) cap m' afs_m); [apply EI_tick|exact HES].
+        + rewrite obs_m_app. apply f_equal2; [cbn; destruct (0 <? ia)%N; reflexivity|reflexivity].
+      - exists T. split; [exact HES|]. apply N.ltb_ge in E0. assert (ia = 0%N) by lia.
+        replace ia with 0%N. reflexivity. }
+    destruct HB as [T' [HES' Hobs']].
+    assert (El : (S fi <? length (m_imports m'))%nat = false) by (rewrite imports'; exact Eimp).
+    assert (Hn : nth_opt afs_m (S fi - length (m_imports m')) =
+                 Some {| af_type := f_type fn; af_locals := f_locals fn; af_entry := 0%N;
+                         af_body := entry_tick ia h0 ++ body' |}) by (rewrite imports'; exact Hfm).
+    pose proof (EV_local (mhost h) cap m' afs_m (sh s) (S fi) args _ ft T' r1' El Hn (nth_types' _ _ Hft) HES') as E.
+    cbn [af_entry] in E. rewrite (inv_res_sh ft r1 r1' HRR) in E. cbn [fst snd] in E.
+    assert (Hr : (W, r) = (EvWork ia :: t ++ fst (inv_res ft r1), snd (inv_res ft r1))).
+    { rewrite <- H. unfold inv_res. destruct r1 as [| [|k] | | | |]; try reflexivity;
+        destruct (fin_result _ _ _); reflexivity. }
+    inversion Hr; subst W r; clear Hr.
+    eexists. split; [exact E|].
+    change (EvWork 0%N :: T' ++ fst (inv_res ft r1)) with ([EvWork 0%N] ++ T' ++ fst (inv_res ft r1)).
+    change (EvWork ia :: t ++ fst (inv_res ft r1)) with ([EvWork ia] ++ t ++ fst (inv_res ft r1)).
+    rewrite !obs_m_app, !obs_s_app, Hobs', Hobs.
+    change (obs_m [EvWork 0%N]) with (@nil event). cbn [app]. rewrite <- app_assoc. do 2 f_equal.
+    (* the EvRet events *)
+    unfold inv_res. destruct r1 as [s1 l1 vs|[|k] s1 l1 vs|s1 vs| | |]; try reflexivity;
+      unfold fin_result; destruct (ft_result ft); try reflexivity; destruct vs; reflexivity.
+Qed.
+
+Lemma RR_loop bt L st r r' :
+  RR (None :: L) r r' -> is_br0 r = false -> RR L (blk_res bt st r) (blk_res bt st r').
+Proof.
+  destruct r as [s1 l1 vs|k s1 l1 vs|s1 vs| | |], r' as [s2 l2 vs'|k' s2 l2 vs'|s2 vs'| | |]; cbn; try tauto.
+  - intros [-> [-> ->]] _. auto.
+  - intros [-> [-> [-> H]]]. destruct k as [|k]; [discriminate|]. intros _. cbn. repeat split; auto.
+Qed.
+
+Lemma simLoop_step f :
+  (forall f', (f' < f)%nat -> SimA f') -> (forall f', (f' < f)%nat -> SimLoop f') -> SimLoop f.
+Proof.
+  intros HA HL L body hb body' sbody o bt Hms Hsa s l st W r H Hg.
+  destruct f as [|f]; [inversion H; subst; discriminate|].
+  rewrite tinstr_S in H. cbn [instr_body] in H.
+  destruct (X_seq f s l [] sbody) as [t r1] eqn:E1.
+  assert (Hg1 : good r1 = true).
+  { destruct r1 as [| [|k] | | | |]; try reflexivity; exfalso; inversion H; subst; discriminate Hg. }
+  destruct (HA f (Nat.lt_succ_diag_r f) _ _ _ _ _ Hms Hsa _ _ _ _ _ E1 Hg1) as [T1 [r1' [HES [HRR Hobs]]]].
+  destruct (ES_tick_opt hb _ _ _ _ _ _ HES) as [T1' [HES' Hobs']].
+  destruct (is_br0 r1) eqn:Eb.
+  - (* the body branches back: next iteration *)
+    destruct r1 as [|[|k] s1 l1 vs| | | |]; try discriminate.
+    destruct r1' as [|k' s2 l2 vs'| | | |]; try (cbn in HRR; tauto). destruct HRR as [-> [-> [-> _]]].
+    destruct (X_instr f s1 l1 st (ALoop OInj bt sbody)) as [t2 r2] eqn:E2. inversion H; subst W r; clear H.
+    destruct (HL f (Nat.lt_succ_diag_r f) L body hb body' sbody OInj bt Hms Hsa _ _ _ _ _ E2 Hg) as [T2 [r2' [HEI [HRR2 Hobs2]]]].
+    exists (ev_work o ++ T1' ++ T2), r2'. split; [|split; [exact HRR2|]].
+    + eapply (EI_loop_again (mhost h) cap m' afs_m); eassumption.
+    + rewrite !obs_m_app, !obs_s_app, obs_work, Hobs', Hobs, Hobs2. reflexivity.
+  - (* the loop is left *)
+    assert (Hr : (W, r) = (ev_work o ++ t, blk_res bt st r1)).
+    { rewrite <- H. destruct r1 as [|[|k]| | | |]; try reflexivity. discriminate. }
+    inversion Hr; subst W r; clear Hr H.
+    exists (ev_work o ++ T1'), (blk_res bt st r1'). split; [|split].
+    + apply (EI_loop_exit (mhost h) cap m' afs_m); [exact HES'|].
+      destruct r1 as [|[|k]| | | |], r1'  as [|[|k']| | | |]; cbn in HRR; try tauto; try reflexivity; try discriminate.
+      destruct HRR as [HH _]; discriminate.
+    + apply RR_loop; assumption.
+    + rewrite !obs_m_app, !obs_s_app, obs_work, Hobs', Hobs. reflexivity.
+Qed.
+
+(** ** single instructions *)
+Notation EPm := (EP (mhost h) cap m' afs_m).
+
+Definition InstrSim (f : nat) : Prop :=
+  forall L j hj pre fl a, mi L j = Some (hj, pre, fl) -> annot_instr L j = Some a ->
+  forall s l st t1 r1, X_instr f s l st a = (t1, r1) -> good r1 = true ->
+  exists T1 r1', EPm pre (sh s) l st T1 r1' /\ RR L r1 r1' /\ obs_m T1 = obs_s t1.
+
+Lemma RR_step L x : good (res_of_step x) = true -> RR L (res_of_step x) (res_of_step (sh_step x)).
+Proof. destruct x as [[|]|[[s' l'] st']]; cbn; auto; discriminate. Qed.
+
+Lemma sim_simple f L c b s l st t1 r1 :
+  simple_b b = true ->
+  X_instr f s l st (ABasic (OSrc c 0) b) = (t1, r1) -> good r1 = true ->
+  exists T1 r1', EIm (ABasic (OSrc c 0) b) (sh s) l st T1 r1' /\ RR L r1 r1' /\ obs_m T1 = obs_s t1.
+Proof.
+  intros Hb H Hg. destruct f as [|f]; [inversion H; subst; discriminate|].
+  rewrite tinstr_S, instr_body_simple in H by exact Hb. inversion H; subst; clear H.
+  exists (simple_events (OSrc c 0) b), (res_of_step (exec_simple cap b (sh s) l st)).
+  split; [apply EI_simple; exact Hb|]. rewrite exec_simple_sh. split; [apply RR_step; exact Hg|].
+  destruct b; reflexivity.
+Qed.
+
+Lemma table_sh s c :
+  (if c <? Z.of_nat (length (s_table (sh s))) then nth_opt (s_table (sh s)) (Z.to_nat c) else None) =
+  option_map (option_map S)
+    (if c <? Z.of_nat (length (s_table s)) then nth_opt (s_table s) (Z.to_nat c) else None).
+Proof.
+  cbn [sh s_table]. rewrite map_length. destruct (c <? _); [|reflexivity]. unfold nth_opt. apply nth_error_map.
+Qed.
+
+Lemma atype0 : afunc_type m' afs_m 0 = Some account_memory_type.
+Proof.
+  unfold afunc_type. rewrite imports'. cbn [length Nat.ltb Nat.leb nth_opt nth_error].
+  unfold nth_opt. rewrite types'. rewrite nth_error_app2 by lia. rewrite Nat.sub_diag. reflexivity.
+Qed.
+
+Lemma sim_callres f0 L s fi args t rv l st :
+  SimInv f0 ->
+  X_inv f0 s fi args = (t, rv) -> good (call_res l st rv) = true ->
+  exists T, EVm (sh s) (S fi) args T (shv rv) /\ obs_m T = obs_s t /\
+            RR L (call_res l st rv) (call_res l st (shv rv)).
+Proof.
+  intros HI H Hg.
+  assert (Hgv : goodv rv = true) by (destruct rv as [r0|[s' v]]; [exact Hg|reflexivity]).
+  destruct (HI _ _ _ _ _ H Hgv) as [T [HEV Hobs]]. exists T. repeat split; auto.
+  destruct rv as [r0|[s' v]]; cbn.
+  - destruct (tinv_inl_shape _ _ _ _ _ _ _ _ _ _ H) as [-> | [-> | ->]]; cbn; auto; discriminate.
+  - auto.
+Qed.
+
+Lemma kind_pending b : kind_of b = KPending ->
+  simple_b b = true /\ (forall n, b <> BTick n) /\ (forall idx, b <> BBrIf idx).
+Proof. destruct b; cbn; intro H; try discriminate; repeat split; intros; discriminate. Qed.
+
+Lemma label_arity0 L idx bt : lookup_label L idx = Some 0%N -> nth_error L idx = Some bt -> arity bt = 0%nat.
+Proof. unfold lookup_label. intros H E. rewrite E in H. destruct bt; [discriminate|reflexivity]. Qed.
+
+Lemma obs_call o fi T t : obs_m T = obs_s t ->
+  obs_m (ev_work o ++ ev_call m' (S fi) ++ T) = obs_s (ev_work o ++ ev_call m fi ++ t).
+Proof. intro H. rewrite !obs_m_app, !obs_s_app, obs_ev_call, obs_work, H. reflexivity. Qed.
+
+(** direct calls *)
+Lemma sim_call f L c idx s l st t1 r1 :
+  (forall f', (f' < f)%nat -> SimInv f') ->
+  X_instr f s l st (ABasic (OSrc c 0) (BCall idx)) = (t1, r1) -> good r1 = true ->
+  exists T1 r1', EIm (ABasic (OSrc c 0) (BCall (idx + num_added_functions))) (sh s) l st T1 r1' /\
+                 RR L r1 r1' /\ obs_m T1 = obs_s t1.
+Proof.
+  intros HI H Hg. destruct f as [|f]; [inversion H; subst; discriminate|].
+  rewrite tinstr_S in H. cbn [instr_body] in H.
+  destruct (afunc_type m afs_s idx) as [ft|] eqn:Eft; [|inversion H; subst; discriminate].
+  destruct (take_args (length (ft_params ft)) st []) as [[args st']|] eqn:Eta; [|inversion H; subst; discriminate].
+  destruct (X_inv f s idx args) as [t rv] eqn:Ei.
+  rewrite (call_body_eval h cap m afs_s f _ _ _ _ _ _ _ _ Ei) in H. inversion H; subst t1 r1; clear H.
+  destruct (sim_callres f L _ _ _ _ _ l st' (HI f (Nat.lt_succ_diag_r f)) Ei Hg) as [T [HEV [Hobs HRR]]].
+  replace (idx + num_added_functions)%nat with (S idx) by (unfold num_added_functions; lia).
+  eexists. eexists. split; [eapply (EI_call (mhost h) cap m' afs_m); [apply atype_shift; exact Eft|exact Eta|exact HEV]|].
+  split; [exact HRR|]. apply (obs_call (OSrc c 0)); exact Hobs.
+Qed.
+
+(** indirect calls *)
+Lemma sim_call_indirect f L c ti s l st t1 r1 :
+  (forall f', (f' < f)%nat -> SimInv f') ->
+  X_instr f s l st (ABasic (OSrc c 0) (BCallIndirect ti)) = (t1, r1) -> good r1 = true ->
+  exists T1 r1', EIm (ABasic (OSrc c 0) (BCallIndirect ti)) (sh s) l st T1 r1' /\
+                 RR L r1 r1' /\ obs_m T1 = obs_s t1.
+Proof.
+  intros HI H Hg. destruct f as [|f]; [inversion H; subst; discriminate|].
+  rewrite tinstr_S in H. cbn [instr_body] in H.
+  destruct st as [|[c0|c0] st0]; try (inversion H; subst; discriminate).
+  destruct (nth_opt (m_types m) ti) as [ft|] eqn:Ety; [|inversion H; subst; discriminate].
+  pose proof (table_sh s c0) as Htab.
+  destruct (if c0 <? Z.of_nat (length (s_table s)) then nth_opt (s_table s) (Z.to_nat c0) else None) as [[fi|]|] eqn:El.
+  - destruct (afunc_type m afs_s fi) as [ft'|] eqn:Eft; [|inversion H; subst; discriminate].
+    destruct (functype_eqb ft ft') eqn:Eeq.
+    + destruct (take_args (length (ft_params ft)) st0 []) as [[args st']|] eqn:Eta; [|inversion H; subst; discriminate].
+      destruct (X_inv f s fi args) as [t rv] eqn:Ei.
+      rewrite (call_body_eval h cap m afs_s f _ _ _ _ _ _ _ _ Ei) in H. inversion H; subst t1 r1; clear H.
+      destruct (sim_callres f L _ _ _ _ _ l st' (HI f (Nat.lt_succ_diag_r f)) Ei Hg) as [T [HEV [Hobs HRR]]].
+      eexists. eexists.
+      split; [eapply (EI_call_indirect (mhost h) cap m' afs_m);
+              [apply nth_types'; exact Ety|exact Htab|apply atype_shift; exact Eft|exact Eeq|exact Eta|exact HEV]|].
+      split; [exact HRR|]. apply (obs_call (OSrc c 0)); exact Hobs.
+    + inversion H; subst t1 r1; clear H. eexists. exists RTrap.
+      split; [eapply (EI_call_indirect_mismatch (mhost h) cap m' afs_m);
+              [apply nth_types'; exact Ety|exact Htab|apply atype_shift; exact Eft|exact Eeq]|].
+      split; [exact I|]. pose proof (obs_call (OSrc c 0) fi [] [] eq_refl) as Ho. rewrite !app_nil_r in Ho. exact Ho.
+  - inversion H; subst t1 r1; clear H. eexists. exists RTrap.
+    split; [eapply (EI_call_indirect_undef (mhost h) cap m' afs_m); [apply nth_types'; exact Ety|rewrite Htab; exact I]|].
+    split; [exact I|reflexivity].
+  - inversion H; subst t1 r1; clear H. eexists. exists RTrap.
+    split; [eapply (EI_call_indirect_undef (mhost h) cap m' afs_m); [apply nth_types'; exact Ety|rewrite Htab; exact I]|].
+    split; [exact I|reflexivity].
+Qed.
+
+(** memory.grow: the injected call of import 0 returns its argument and leaves the store alone *)
+Lemma sim_memgrow f L c s l st t1 r1 :
+  X_instr f s l st (ABasic (OSrc c 0) BMemoryGrow) = (t1, r1) -> good r1 = true ->
+  exists T1 r1', EPm [ABasic OInj (BCall fn_idx_memory_alloc); ABasic (OSrc c 0) BMemoryGrow] (sh s) l st T1 r1'
+                 /\ RR L r1 r1' /\ obs_m T1 = obs_s t1.
+Proof.
+  intros H Hg.
+  destruct (sim_simple f L c BMemoryGrow s l st t1 r1 eq_refl H Hg) as [T [r' [HEI [HRR Hobs]]]].
+  destruct f as [|f]; [inversion H; subst; discriminate|].
+  rewrite tinstr_S, instr_body_simple in H by reflexivity. inversion H; subst t1 r1; clear H.
+  destruct st as [|[n|n] st0]; try discriminate Hg.
+  (* Call 0 on the stack (VI32 n :: st0) *)
+  assert (HC : EIm (ABasic OInj (BCall fn_idx_memory_alloc)) (sh s) l (VI32 n :: st0)
+                   (ev_work OInj ++ ev_call m' 0 ++ [EvHost 0%nat [VI32 n]]) (RNormal (sh s) l (VI32 n :: st0))).
+  { assert (El : (0 <? length (m_imports m'))%nat = true) by (rewrite imports'; reflexivity).
+    pose proof (EV_host (mhost h) cap m' afs_m (sh s) 0%nat [VI32 n] _ El atype0) as EV0.
+    cbn [mhost] in EV0. rewrite set_mem_same in EV0.
+    exact (EI_call (mhost h) cap m' afs_m OInj 0%nat (sh s) l (VI32 n :: st0) account_memory_type
+             [VI32 n] st0 _ _ atype0 eq_refl EV0). }
+  eexists. exists r'. split; [eapply (EP2n (mhost h) cap m' afs_m); [exact HC|exact HEI]|].
+  split; [exact HRR|]. rewrite obs_m_app, Hobs.
+  assert (E0 : ev_call m' 0 = []) by (unfold ev_call, is_local; rewrite imports'; reflexivity).
+  rewrite E0. reflexivity.
+Qed.
+
+(** br_if, target label without value *)
+Lemma sim_brif0 f L c idx s l st t1 r1 :
+  lookup_label L idx = Some 0%N ->
+  X_instr f s l st (ABasic (OSrc c (c_branch cfg 0)) (BBrIf idx)) = (t1, r1) -> good r1 = true ->
+  exists T1 r1',
+    EIm (AIf (OSrc c 0) None [ABasic OInj (BTick (c_branch cfg 0)); ABasic (OSrc (c_branch cfg 0) 0) (BBr (idx + 1))] [])
+        (sh s) l st T1 r1' /\ RR L r1 r1' /\ obs_m T1 = obs_s t1.
+Proof.
+  intros Hl H Hg. destruct f as [|f]; [inversion H; subst; discriminate|].
+  rewrite tinstr_S in H. cbn [instr_body] in H.
+  destruct st as [|[v|v] st0]; try (inversion H; subst; discriminate).
+  set (b := c_branch cfg 0) in *.
+  destruct (v =? 0) eqn:Ev.
+  - inversion H; subst t1 r1; clear H.
+    pose proof (EI_block (mhost h) cap m' afs_m OInj None [] (sh s) l st0 _ _ (ES_nil _ _ _ _ _ _ _)) as EB.
+    eexists. eexists. split; [apply (EI_if (mhost h) cap m' afs_m); rewrite Ev; exact EB|].
+    split; [cbn; auto|reflexivity].
+  - inversion H; subst t1 r1; clear H.
+    assert (ESb : ESm [ABasic OInj (BTick b); ABasic (OSrc b 0) (BBr (idx + 1))] (sh s) l []
+                      ((EvTick b :: ev_work OInj) ++ ev_work (OSrc b 0)) (RBr (idx + 1) (sh s) l [])).
+    { eapply (ES_cons_normal (mhost h) cap m' afs_m); [apply EI_tick|].
+      apply (ES_cons_stop (mhost h) cap m' afs_m); [apply EI_br|reflexivity]. }
+    pose proof (EI_block (mhost h) cap m' afs_m OInj None _ (sh s) l st0 _ _ ESb) as EB.
+    eexists. eexists. split; [apply (EI_if (mhost h) cap m' afs_m); rewrite Ev; exact EB|].
+    split.
+    + replace (idx + 1)%nat with (S idx) by lia. cbn. repeat split; auto.
+      intros bt Hbt. rewrite (label_arity0 _ _ _ Hl Hbt). reflexivity.
+    + cbn. destruct (0 <? c)%N, (0 <? b)%N; reflexivity.
+Qed.
+
+(** br_if, target label with a value *)
+Lemma sim_brif1 f L c idx s l st t1 r1 :
+  X_instr f s l st (ABasic (OSrc c (c_branch cfg 1)) (BBrIf idx)) = (t1, r1) -> good r1 = true ->
+  exists T1 r1',
+    EPm [AIf (OSrc c 0) (Some T_i32) [ABasic OInj (BTick (c_branch cfg 1)); ABasic OInj (BConst T_i32 1)]
+                                     [ABasic OInj (BConst T_i32 0)];
+         ABasic (OSrc 0 (c_branch cfg 1)) (BBrIf idx)]
+        (sh s) l st T1 r1' /\ RR L r1 r1' /\ obs_m T1 = obs_s t1.
+Proof.
+  intros H Hg. destruct f as [|f]; [inversion H; subst; discriminate|].
+  rewrite tinstr_S in H. cbn [instr_body] in H.
+  destruct st as [|[v|v] st0]; try (inversion H; subst; discriminate).
+  set (b := c_branch cfg 1) in *.
+  destruct (v =? 0) eqn:Ev.
+  - inversion H; subst t1 r1; clear H.
+    assert (ESb : ESm [ABasic OInj (BConst T_i32 0)] (sh s) l [] (simple_events OInj (BConst T_i32 0) ++ [])
+                      (RNormal (sh s) l [VI32 0])).
+    { eapply (ES_cons_normal (mhost h) cap m' afs_m);
+        [exact (EI_simple (mhost h) cap m' afs_m OInj (BConst T_i32 0) (sh s) l [] eq_refl)|apply ES_nil]. }
+    pose proof (EI_block (mhost h) cap m' afs_m OInj (Some T_i32) _ (sh s) l st0 _ _ ESb) as EB.
+    cbn [blk_res arity firstn app] in EB.
+    pose proof (EI_brif (mhost h) cap m' afs_m (OSrc 0 b) idx (sh s) l 0 st0) as EBR. cbn [Z.eqb] in EBR.
+    eexists. eexists. split; [eapply (EP2n (mhost h) cap m' afs_m); [apply (EI_if (mhost h) cap m' afs_m); rewrite Ev; exact EB|exact EBR]|].
+    split; [cbn; auto|]. cbn. destruct (0 <? c)%N; reflexivity.
+  - inversion H; subst t1 r1; clear H.
+    assert (ESb : ESm [ABasic OInj (BTick b); ABasic OInj (BConst T_i32 1)] (sh s) l []
+                      ((EvTick b :: ev_work OInj) ++ simple_events OInj (BConst T_i32 1) ++ [])
+                      (RNormal (sh s) l [VI32 1])).
+    { eapply (ES_cons_normal (mhost h) cap m' afs_m); [apply EI_tick|].
+      eapply (ES_cons_normal (mhost h) cap m' afs_m);
+        [exact (EI_simple (mhost h) cap m' afs_m OInj (BConst T_i32 1) (sh s) l [] eq_refl)|apply ES_nil]. }
+    pose proof (EI_block (mhost h) cap m' afs_m OInj (Some T_i32) _ (sh s) l st0 _ _ ESb) as EB.
+    cbn [blk_res arity firstn app] in EB.
+    pose proof (EI_brif (mhost h) cap m' afs_m (OSrc 0 b) idx (sh s) l 1 st0) as EBR. cbn [Z.eqb] in EBR.
+    eexists. eexists. split; [eapply (EP2n (mhost h) cap m' afs_m); [apply (EI_if (mhost h) cap m' afs_m); rewrite Ev; exact EB|exact EBR]|].
+    split; [cbn; repeat split; auto|]. cbn. destruct (0 <? c)%N, (0 <? b)%N; reflexivity.
+Qed.
+
+Ltac obind_inv H :=
+  repeat match type of H with
+         | obind ?o _ = Some _ => let E := fresh "E" in destruct o eqn:E; [cbn [obind] in H|discriminate H]
+         | (let '(_, _) := ?p in _) = Some _ => destruct p
+         | (if ?c then _ else _) = Some _ => let E := fresh "E" in destruct c eqn:E; [|discriminate H]
+         end.
+
+Lemma block_instr_eq o bt body s l st f :
+  X_instr (S f) s l st (ABlock o bt body) =
+  (ev_work o ++ fst (X_seq f s l [] body), blk_res bt st (snd (X_seq f s l [] body))).
+Proof. rewrite tinstr_S. cbn [instr_body]. destruct (X_seq f s l [] body) as [t r]. reflexivity. Qed.
+
+Lemma sim_block f L bt body hb body' sbody o st s l t1 r1 :
+  (forall f', (f' < f)%nat -> SimA f') ->
+  mseq (bt :: L) body = Some (hb, body') -> annot_seq (bt :: L) body = Some sbody ->
+  X_instr f s l st (ABlock o bt sbody) = (t1, r1) -> good r1 = true ->
+  exists T r', EIm (ABlock o bt body') (sh s) l st T r' /\ RR L r1 r' /\ obs_m T = obs_s t1.
+Proof.
+  intros HA Hms Hsa H Hg. destruct f as [|f]; [inversion H; subst; discriminate|].
+  rewrite block_instr_eq in H. destruct (X_seq f s l [] sbody) as [t r0] eqn:EX. cbn [fst snd] in H.
+  inversion H; subst t1 r1; clear H. rewrite good_blk in Hg.
+  destruct (HA f (Nat.lt_succ_diag_r f) _ _ _ _ _ Hms Hsa _ _ _ _ _ EX Hg) as [T [r0' [HES [HRR Hobs]]]].
+  eexists. eexists. split; [apply (EI_block (mhost h) cap m' afs_m); exact HES|].
+  split; [apply RR_blk; exact HRR|]. rewrite obs_m_app, obs_s_app, obs_work, Hobs. reflexivity.
+Qed.
+
+Lemma sim_tblock f L bt body hb body' sbody st s l t1 r1 :
+  (forall f', (f' < f)%nat -> SimA f') ->
+  mseq (bt :: L) body = Some (hb, body') -> annot_seq (bt :: L) body = Some sbody ->
+  X_instr f s l st (ABlock OInj bt sbody) = (t1, r1) -> good r1 = true ->
+  exists T r', EIm (ABlock OInj bt (tick_opt hb ++ body')) (sh s) l st T r' /\ RR L r1 r' /\ obs_m T = obs_s t1.
+Proof.
+  intros HA Hms Hsa H Hg. destruct f as [|f]; [inversion H; subst; discriminate|].
+  rewrite block_instr_eq in H. destruct (X_seq f s l [] sbody) as [t r0] eqn:EX. cbn [fst snd] in H.
+  inversion H; subst t1 r1; clear H. rewrite good_blk in Hg.
+  destruct (HA f (Nat.lt_succ_diag_r f) _ _ _ _ _ Hms Hsa _ _ _ _ _ EX Hg) as [T [r0' [HES [HRR Hobs]]]].
+  destruct (ES_tick_opt hb _ _ _ _ _ _ HES) as [T' [HES' Hobs']].
+  eexists. eexists. split; [apply (EI_block (mhost h) cap m' afs_m); exact HES'|].
+  split; [apply RR_blk; exact HRR|]. rewrite obs_m_app, obs_s_app, obs_work, Hobs', Hobs. reflexivity.
+Qed.
+
+Lemma instr_sim f :
+  (forall f', (f' < f)%nat -> SimA f') -> (forall f', (f' < f)%nat -> SimInv f') -> SimLoop f -> InstrSim f.
+Proof.
+  intros HA HI HL L j hj pre fl a Hmi Ha s l st t1 r1 H Hg.
+  rewrite mi_eq in Hmi. rewrite annot_instr_eq in Ha.
+  destruct j as [b|bt body|bt body|bt thn els].
+  - (* Basic *)
+    destruct (c_cost cfg (OBasic b) L cx) as [c|] eqn:Ec; [|discriminate Hmi]. cbn [obind] in Hmi, Ha.
+    destruct (kind_of b) eqn:Ek.
+    + (* pending *)
+      destruct (kind_pending b Ek) as [Hsb [_ Hnb]].
+      assert (a = ABasic (OSrc c 0) b)
+        by (destruct b; try (inversion Ha; reflexivity); exfalso; eapply Hnb; reflexivity).
+      subst a. inversion Hmi; subst hj pre fl; clear Hmi.
+      destruct (sim_simple f L c b s l st t1 r1 Hsb H Hg) as [T [r' [HEI [HRR Hobs]]]].
+      exists T, r'. split; [apply EP1; exact HEI|auto].
+    + (* flush, kept *)
+      inversion Hmi; subst hj pre fl; clear Hmi.
+      destruct b; cbn [kind_of] in Ek; try discriminate Ek; inversion Ha; subst a; clear Ha.
+      * (* unreachable *)
+        destruct (sim_simple f L c BUnreachable s l st t1 r1 eq_refl H Hg) as [T [r' [HEI [HRR Hobs]]]].
+        exists T, r'. split; [apply EP1; exact HEI|auto].
+      * (* br *)
+        destruct f as [|f]; [inversion H; subst; discriminate|]. rewrite tinstr_S in H. cbn [instr_body] in H.
+        inversion H; subst t1 r1; clear H.
+        eexists. eexists. split; [apply EP1; apply EI_br|]. split; [cbn; repeat split; auto|reflexivity].
+      * (* br_table *)
+        destruct f as [|f]; [inversion H; subst; discriminate|]. rewrite tinstr_S in H. cbn [instr_body] in H.
+        destruct st as [|[v|v] st0]; inversion H; subst t1 r1; clear H; try discriminate Hg.
+        eexists. eexists. split; [apply EP1; apply EI_brtable|]. split; [cbn; repeat split; auto|reflexivity].
+      * (* return *)
+        destruct f as [|f]; [inversion H; subst; discriminate|]. rewrite tinstr_S in H. cbn [instr_body] in H.
+        inversion H; subst t1 r1; clear H.
+        eexists. eexists. split; [apply EP1; apply EI_return|]. split; [cbn; auto|reflexivity].
+      * (* call_indirect *)
+        destruct (sim_call_indirect f L c ty s l st t1 r1 HI H Hg) as [T [r' [HEI [HRR Hobs]]]].
+        exists T, r'. split; [apply EP1; exact HEI|auto].
+    + (* call *)
+      inversion Hmi; subst hj pre fl; clear Hmi.
+      destruct b; cbn [kind_of] in Ek; try discriminate Ek; inversion Ek; subst idx; inversion Ha; subst a; clear Ha.
+      destruct (sim_call f L c f0 s l st t1 r1 HI H Hg) as [T [r' [HEI [HRR Hobs]]]].
+      exists T, r'. split; [apply EP1; exact HEI|auto].
+    + (* br_if *)
+      destruct b; cbn [kind_of] in Ek; try discriminate Ek; inversion Ek; subst idx; clear Ek.
+      destruct (lookup_label L l0) as [a0|] eqn:El; [|discriminate Hmi]. cbn [obind] in Hmi, Ha.
+      inversion Ha; subst a; clear Ha.
+      destruct (brif_rewrite cfg c a0 l0) as [rw|] eqn:Erw; [|discriminate Hmi]. cbn [obind] in Hmi.
+      inversion Hmi; subst hj pre fl; clear Hmi.
+      unfold brif_rewrite in Erw. destruct (negb _); [discriminate|].
+      destruct (a0 =? 0)%N eqn:E0.
+      * apply N.eqb_eq in E0. subst a0. inversion Erw; subst rw; clear Erw.
+        destruct (sim_brif0 f L c l0 s l st t1 r1 El H Hg) as [T [r' [HEI [HRR Hobs]]]].
+        exists T, r'. split; [apply EP1; exact HEI|auto].
+      * destruct (a0 =? 1)%N eqn:E1; [|discriminate]. apply N.eqb_eq in E1. subst a0.
+        inversion Erw; subst rw; clear Erw.
+        exact (sim_brif1 f L c l0 s l st t1 r1 H Hg).
+    + (* memory.grow *)
+      inversion Hmi; subst hj pre fl; clear Hmi.
+      destruct b; cbn [kind_of] in Ek; try discriminate Ek. inversion Ha; subst a; clear Ha.
+      exact (sim_memgrow f L c s l st t1 r1 H Hg).
+    + discriminate Hmi.
+  - (* Block *)
+    obind_inv Hmi. obind_inv Ha. inversion Hmi; subst hj pre fl; clear Hmi. inversion Ha; subst a; clear Ha.
+    repeat match goal with HH : Some _ = Some _ |- _ => inversion HH; subst; clear HH end.
+    destruct (sim_block f L bt body _ _ _ (OSrc n 0) st s l t1 r1 HA ltac:(eassumption) ltac:(eassumption) H Hg)
+      as [T [r' [HEI [HRR Hobs]]]].
+    exists T, r'. split; [apply EP1; exact HEI|auto].
+  - (* Loop *)
+    obind_inv Hmi. obind_inv Ha. inversion Hmi; subst hj pre fl; clear Hmi. inversion Ha; subst a; clear Ha.
+    repeat match goal with HH : Some _ = Some _ |- _ => inversion HH; subst; clear HH end.
+    destruct (HL L body _ _ _ (OSrc n 0) bt ltac:(eassumption) ltac:(eassumption) _ _ _ _ _ H Hg) as [T [r' [HEI [HRR Hobs]]]].
+    exists T, r'. split; [apply EP1; exact HEI|auto].
+  - (* If *)
+    obind_inv Hmi. obind_inv Ha. inversion Hmi; subst hj pre fl; clear Hmi. inversion Ha; subst a; clear Ha.
+    repeat match goal with HH : Some _ = Some _ |- _ => inversion HH; subst; clear HH end.
+    destruct f as [|f]; [inversion H; subst; discriminate|].
+    rewrite tinstr_S in H. cbn [instr_body] in H.
+    destruct st as [|[v|v] st0]; try (inversion H; subst; discriminate).
+    match type of H with context [X_instr f s l st0 ?blk] => destruct (X_instr f s l st0 blk) as [t r0] eqn:EX end.
+    inversion H; subst t1 r1; clear H.
+    assert (HA' : forall f', (f' < f)%nat -> SimA f') by (intros; apply HA; lia).
+    destruct (v =? 0) eqn:Ev.
+    + destruct (sim_tblock f L bt els _ _ _ st0 s l t r0 HA' ltac:(eassumption) ltac:(eassumption) EX Hg)
+        as [T [r' [HEI [HRR Hobs]]]].
+      eexists. exists r'. split; [apply EP1; apply (EI_if (mhost h) cap m' afs_m); rewrite Ev; exact HEI|].
+      split; [exact HRR|]. rewrite obs_m_app, obs_s_app, obs_work, Hobs. reflexivity.
+    + destruct (sim_tblock f L bt thn _ _ _ st0 s l t r0 HA' ltac:(eassumption) ltac:(eassumption) EX Hg)
+        as [T [r' [HEI [HRR Hobs]]]].
+      eexists. exists r'. split; [apply EP1; apply (EI_if (mhost h) cap m' afs_m); rewrite Ev; exact HEI|].
+      split; [exact HRR|]. rewrite obs_m_app, obs_s_app, obs_work, Hobs. reflexivity.
+Qed.
 
 End Sim.
